@@ -113,7 +113,7 @@ def extra_phases(rep, exe_impl, exe_model):
 
 
 def main(rep):
-    wk.standard_main(rep, fault=True, extra=extra_phases, fault_monitors=["fault_reported", "expected_handled", "completed_exact", "exec_completed", "accepted_is_queued", "partial_snapshot", "snapshot_members", "recovery", "no_partial", "position_kept", "position_not_ahead", "store_immutable", "queue_form"],
+    wk.standard_main(rep, fault=True, extra=extra_phases, fault_monitors=["fault_reported", "idle_means_empty", "expected_handled", "completed_exact", "exec_completed", "accepted_is_queued", "partial_snapshot", "snapshot_members", "recovery", "no_partial", "position_kept", "position_not_ahead", "store_immutable", "queue_form"],
                      known=known,
                      rule=("one failing system call at a time: every call index of the implementation's own log of the operation under test in each scenario "
                            "family x plausible errnos of that call (open: EACCES ENOSPC EMFILE EIO ENOENT, EEXIST at an exclusive create; mkdir: EACCES ENOSPC; sendfile/write: EIO ENOSPC; "
@@ -122,4 +122,4 @@ def main(rep):
 
 
 def replay(rep, path):
-    return wk.replay_world(rep, path, ["fault_reported", "expected_handled", "completed_exact", "exec_completed", "accepted_is_queued", "partial_snapshot", "snapshot_members", "recovery", "no_partial", "store_immutable", "silent_incomplete_snapshot"])
+    return wk.replay_world(rep, path, ["fault_reported", "idle_means_empty", "expected_handled", "completed_exact", "exec_completed", "accepted_is_queued", "partial_snapshot", "snapshot_members", "recovery", "no_partial", "store_immutable", "silent_incomplete_snapshot"])
